@@ -3,4 +3,4 @@
 package gmars
 
 // the pass cap CompileWarrior applies (kept in step by the harness correspondence)
-const verifMaxForPasses = 12
+const verifMaxForPasses = maxForPasses
